@@ -186,6 +186,7 @@ def worker_init():
     _W["impl"] = impl
     _W["LarkError"] = lark.exceptions.LarkError
     _W["UnexpectedInput"] = lark.exceptions.UnexpectedInput
+    _W["VisitError"] = lark.exceptions.VisitError
     _W["seam"] = install_seam()
     _W["loaders"] = {}
     signal.signal(signal.SIGALRM, _alarm)
@@ -193,19 +194,19 @@ def worker_init():
 
 
 def _loader(opt):
-    """opt: "" default | "c" include_comments | "p" include_position | "cp" both | "public" """
+    """opt: "" default | "c" include_comments | "p" include_position | "cp" both | "public".
+    -> (parse, transform) - transform is None for the public one-call API"""
     ld = _W["loaders"].get(opt)
     if ld is None:
         impl = _W["impl"]
         if opt == "public":
-            def ld(text):
+            def pub(text):
                 return impl.mappyfile.loads(text, expand_includes=False)
+            ld = (pub, None)
         else:
             p = impl.Parser(expand_includes=False, include_comments="c" in opt)
             m = impl.MapfileToDict(include_position="p" in opt, include_comments="c" in opt)
-
-            def ld(text, p=p, m=m):
-                return m.transform(p.parse(text))
+            ld = (p.parse, m.transform)
         _W["loaders"][opt] = ld
     return ld
 
@@ -234,9 +235,10 @@ def run_text(text, opt="", record=False, limit=20.0, cpu=True):
     that does not terminate burns CPU) or of wall time (cpu=False) before the call is abandoned
     (kind "other", exc "Hang")."""
     global _rec
-    ld = _loader(opt)
+    parse, transform = _loader(opt)
     ev = [] if (record and _W.get("seam")) else None
-    out = {"ev": "out", "kind": "ok", "exc": "", "syntax": False, "haspos": False, "line": 0, "col": 0,
+    stage = "parse"
+    out = {"ev": "out", "kind": "ok", "exc": "", "stage": "none", "syntax": False, "haspos": False, "line": 0, "col": 0,
            "nlines": nlines(text), "isdict": False, "where": "", "msg": ""}
     _rec = ev
     timer = signal.ITIMER_VIRTUAL if cpu else signal.ITIMER_REAL
@@ -245,14 +247,22 @@ def run_text(text, opt="", record=False, limit=20.0, cpu=True):
     c0 = time.process_time()
     try:
         try:
-            r = ld(text)
+            r = parse(text)
+            if transform is not None:
+                stage = "transform"
+                r = transform(r)
             out["isdict"] = isinstance(r, dict) or (isinstance(r, list) and len(r) > 0 and all(isinstance(x, dict) for x in r))
             if not out["isdict"]:
                 out["msg"] = "returned %s" % type(r).__name__
         except _W["LarkError"] as ex:
             out["kind"] = "larkerror"
             out["exc"] = type(ex).__name__
-            out["syntax"] = isinstance(ex, _W["UnexpectedInput"])
+            # a Lark-family exception out of Parser.parse is a syntax error whatever its class; the
+            # one-call API does not show the stage: VisitError is what the transformer stage raises
+            if transform is None:
+                stage = "transform" if isinstance(ex, _W["VisitError"]) else "parse"
+            out["stage"] = stage
+            out["syntax"] = stage == "parse"
             ln, co = getattr(ex, "line", None), getattr(ex, "column", None)
             if isinstance(ln, int) and isinstance(co, int) and not isinstance(ln, bool):
                 out["haspos"] = True
@@ -418,6 +428,71 @@ def long_shapes(n0=1000):
     return S
 
 
+# ------------------------------------------------------------------------------------- single lexemes
+LEX_OPEN = {"dq": ('"', '"'), "sq": ("'", "'"), "bq": ("`", "`"), "re": ("/", "/"), "re2": ("\\\\", "\\\\"),
+            "rv": ("%", "%"), "cc": ("/*", "*/"), "lc": ("#", "\n")}
+LEX_UNIT = {"x": "x", "bs": "\\", "bsbs": "\\\\", "bsdq": '\\"', "bssq": "\\'", "dq": '"', "sq": "'", "bq": "`",
+            "star": "*", "slash": "/", "starslash": "*/", "sp": " ", "nl": "\n", "pct": "%", "hash": "#",
+            "uni": "\xe9\u65e5"}
+LEX_CTX = {"value": "MAP\n  NAME %s\nEND\n", "expr": "CLASS\n  EXPRESSION ( %s = 1 )\nEND", "root": "%s",
+           "kv": "MAP METADATA\n %s %s\nEND END", "proj": "MAP PROJECTION\n%s\nEND END",
+           "list": "CLASS EXPRESSION {%s,%s} END"}
+
+
+def lexeme(d, u, closed, n):
+    o, c = LEX_OPEN[d]
+    return o + LEX_UNIT[u] * n + (c if closed else "")
+
+
+def lex_text(case, n=None):
+    """text of a lexeme case {d, u, closed, ctx, n} from spec/ParseLoop.tla (LexCases)"""
+    t = lexeme(case["d"], case["u"], case["closed"], case["n"] if n is None else n)
+    f = LEX_CTX[case.get("ctx", "value")]
+    return f % ((t,) * f.count("%s"))
+
+
+def lex_name(case):
+    return "lexeme:%s:%s:%s" % (case["d"], case["u"], "closed" if case["closed"] else "open")
+
+
+def lex_batch(job):
+    """job: {"tag", "lo", "hi", "limit"}; DATA[tag] = lexeme cases sorted by (d, u, closed): once a
+    combination has been abandoned for CPU time its remaining cases are skipped (one report)."""
+    if not _W:
+        worker_init()
+    data = DATA[job["tag"]]
+    default = CFG["allowed"]
+    counts, bad, traces = {}, [], []
+    n = 0
+    cpu0 = time.process_time()
+    hung = set()
+    for idx in range(job["lo"], job["hi"]):
+        item = data[idx]
+        case = item["lex"]
+        name = lex_name(case)
+        if name in hung:
+            continue
+        text = lex_text(case)
+        opt = _opt_for(idx, 0)
+        out, ev = run_text(text, opt, True, job["limit"])
+        n += 1
+        k = (out["kind"], out["exc"])
+        counts[k] = counts.get(k, 0) + 1
+        if out["exc"] == "Hang":
+            hung.add(name)
+            v = ("C11|time|%s" % name, "no answer within %.0f s of CPU time for a %d character input (%s x %d in %s)"
+                 % (job["limit"], len(text), case["u"], case["n"], case["ctx"]))
+        else:
+            v = verdict(out, item.get("allowed", default), opt, origin=job["tag"])
+        if v is not None and len(bad) < 40:
+            bad.append((v[0], v[1], {"text": text, "opt": opt, "lex": case, "origin": "%s:%d" % (job["tag"], idx),
+                                     "outcome": {k2: out[k2] for k2 in ("kind", "exc", "line", "col", "nlines", "where", "msg")}}))
+        if ev is not None and idx % 4 == 0:
+            traces.append((ev[:80], {k2: out[k2] for k2 in ("ev", "kind", "stage", "syntax", "haspos", "line", "col", "nlines", "isdict")},
+                           v[0] if v else None, text if len(text) < 400 else None, opt))
+    return {"n": n, "counts": counts, "bad": bad, "traces": traces, "roots_ok": set(), "cpu": time.process_time() - cpu0}
+
+
 def time_shape(job):
     """pool entry: (name, sizes, reps, factor) ->
          {"name", "points": [(n_tokens, chars, cpu seconds, wall seconds, kind)], "killed": bool}
@@ -428,22 +503,36 @@ def time_shape(job):
     if not _W:
         worker_init()
     name, sizes, reps, factor = job
-    fn = long_shapes(sizes[0])[name]
+    acc = 0.25
+    if name.startswith("lexeme:"):
+        _l, d, u, cl = name.split(":")
+        case = {"d": d, "u": u, "closed": cl == "closed", "ctx": "value", "n": 0}
+
+        def fn(n, case=case):
+            return lex_text(case, n)
+        acc = 0.04
+    else:
+        fn = long_shapes(sizes[0])[name]
     for _ in range(3):      # warm-up (lazy initialisation inside lark)
-        run_text(fn(sizes[0]), "", False, limit=60.0)
+        if run_text(fn(sizes[0]), "", False, limit=5.0)[0]["exc"] == "Hang":
+            # not even the smallest size answers: compare with a single unit
+            o1, _e = run_text(fn(1), "", False, limit=5.0)
+            k1 = "killed" if o1["exc"] == "Hang" else o1["kind"]
+            return {"name": name, "killed": True,
+                    "points": [(1, len(fn(1)), max(o1["cpu"], 1e-4), o1["t"], k1), (sizes[0], len(fn(sizes[0])), 5.0, 5.0, "killed")]}
     pts = []
     killed = False
     base = None
     for n in sizes:
         text = fn(n)
         best = wall = kind = None
-        budget = 900.0 if base is None else max(2.0, factor * base * (n / float(sizes[0])) * 1.02)
+        budget = 30.0 if base is None else max(2.0, factor * base * (n / float(sizes[0])) * 1.02)
         if base is None:
             # CPU clocks tick at ~4 ms here: repeat the short call until >= 0.25 s of CPU time has been spent
             k = 0
             c0 = time.process_time()
             w0 = time.perf_counter()
-            while k < 400 and (k < reps or time.process_time() - c0 < 0.25):
+            while k < 400 and (k < reps or time.process_time() - c0 < acc):
                 out, _ev = run_text(text, "", False, limit=budget, cpu=True)
                 k += 1
             best = (time.process_time() - c0) / k
@@ -586,7 +675,7 @@ def class_batch(job):
                 bad.append((v[0], v[1], {"text": text, "opt": opt, "classes": soup, "origin": "%s:%d" % (tag, idx),
                                          "outcome": {k2: out[k2] for k2 in ("kind", "exc", "line", "col", "nlines", "where", "msg")}}))
             if ev is not None:
-                traces.append((ev[:80], {k2: out[k2] for k2 in ("ev", "kind", "syntax", "haspos", "line", "col", "nlines", "isdict")},
+                traces.append((ev[:80], {k2: out[k2] for k2 in ("ev", "kind", "stage", "syntax", "haspos", "line", "col", "nlines", "isdict")},
                                v[0] if v else None, text if len(text) < 400 else None, opt))
     return {"n": n, "counts": counts, "bad": bad, "traces": traces, "roots_ok": roots_ok, "cpu": time.process_time() - cpu0}
 
@@ -625,6 +714,6 @@ def window_batch(job):
                                      "origin": "%s:%d" % (tag, idx),
                                      "outcome": {k2: out[k2] for k2 in ("kind", "exc", "line", "col", "nlines", "where", "msg")}}))
         if ev is not None:
-            traces.append((ev[:80], {k2: out[k2] for k2 in ("ev", "kind", "syntax", "haspos", "line", "col", "nlines", "isdict")},
+            traces.append((ev[:80], {k2: out[k2] for k2 in ("ev", "kind", "stage", "syntax", "haspos", "line", "col", "nlines", "isdict")},
                            v[0] if v else None, None, opt))
     return {"n": n, "counts": counts, "bad": bad, "traces": traces, "roots_ok": set(), "cpu": time.process_time() - cpu0}
